@@ -106,7 +106,7 @@ let rec obs_sx = function
   | L [A "any"; p] -> OAny (obs_sx p)
   | L [A "all"; p] -> OAll (obs_sx p)
   | L [A "elem"; z] -> OElem (z_of_int (int_sx z))
-  | A "reverse" -> OReverse | A "flatten" -> OFlatten
+  | A "reverse" -> OReverse | A "flatten" -> OFlatten | A "sort" -> OSort
   | A "seq" -> OSeq | A "deepseq" -> ODeepSeq | A "serde" -> OSerde
   | L [A "eqr"; l] -> OEqR (lit_sx l)
   | L [A "eql"; l] -> OEqL (lit_sx l)
